@@ -16,7 +16,7 @@ Encodings
   levels    `<attrs>:<pre>:<post>` joined by `,` (outermost first)
   vis       `p` | `i` | `r:<global>:<strs>`;     ext  `n` | `i` | `e:<abi>`
   attr      `d:<strs>` derive | `D` derive without a list | `c:<text>` doc comment | `v:<inner>:<value>` doc attribute |
-            `x:<text>`;   attrs: `<attr>/<newlines>/<slash>` joined by `,`
+            `x:<text>`;   attrs: `<attr>/<newlines>/<slash>[/<comment behind it on its line>]` joined by `,`
   kind      `l` `i` `m` `0` | `e<c>` | `s<c>`, c = `j` jump, `w` loop, `o` other
 
 Operations (model of the function named)
@@ -181,7 +181,8 @@ def encAttr : Attr → String
 
 def decAttrIn (s : String) : Option AttrIn :=
   match s.splitOn "/" with
-  | [a, n, sl] => do pure ⟨← decAttr a, ← n.toNat?, ← decBool sl⟩
+  | [a, n, sl, lc] => do pure ⟨← decAttr a, ← n.toNat?, ← decBool sl, ← decBool lc⟩
+  | [a, n, sl] => do pure ⟨← decAttr a, ← n.toNat?, ← decBool sl, false⟩
   | _ => none
 
 def decAttrs (s : String) : Option (List AttrIn) :=
